@@ -612,8 +612,9 @@ def main():
                        4000 if quick else 200000),
     "engine_tier": "%d seeded documents; rename modes RenameColumn / UpdateRecord and "
                    "BulkUpdateRecord of colId on _grist_Tables_column / separate bundles" % (260 if quick else 6000)}
-  driver.check(rep, FN_CONTRACT, fn_cases, exhaustive=False)
-  driver.check(rep, ENG_CONTRACT, eng_cases, exhaustive=False)
+  # 8 workers: with 16 the engine tier loses more to kernel contention than it gains (measured)
+  driver.check(rep, FN_CONTRACT, fn_cases, procs=8, exhaustive=False)
+  driver.check(rep, ENG_CONTRACT, eng_cases, procs=8, exhaustive=False)
   rep.coverage["exhaustive"] = False
   return rep.finish()
 
